@@ -61,6 +61,284 @@ def same(a, b, tol=1e-9):
     return abs(a - b) <= tol * max(1.0, abs(b))
 
 
+
+# ------------------------------------------------------------------------------------------
+# independent exact-rational oracle (Fractions; no model entry involved)
+# ------------------------------------------------------------------------------------------
+def fq(x):
+    x = float(x)
+    return None if np.isnan(x) else (x if np.isinf(x) else Fraction(x))
+
+
+def firm_cell_oracle(f, o, a, tws, d, assign):
+    """(total, over, under) of one forecast case: sum_j w_j * fixed-risk penalty at threshold t_j; NaN if any input is NaN"""
+    f, o = fq(f), fq(o)
+    over = under = Fraction(0)
+    for t, w in tws:
+        t, w = fq(t), fq(w)
+        if f is None or o is None or t is None or w is None:
+            return (NAN, NAN, NAN)
+        lower = assign == "lower"
+        fa = (o <= t < f) if lower else (o < t <= f)
+        miss = (f <= t < o) if lower else (f < t <= o)
+
+        def scale(x):
+            if d is None or d == 0:
+                return 1
+            return x if d == INF else min(x, Fraction(d))
+        if fa:
+            over += w * (1 - Fraction(a)) * scale(t - o)
+        if miss:
+            under += w * Fraction(a) * scale(o - t)
+    return (over + under, over, under)
+
+
+def firm_oracle_arrays(c):
+    ths = [t if isinstance(t, xr.DataArray) else xr.DataArray(float(t)) for t in c["ths"]]
+    wts = [t if isinstance(t, xr.DataArray) else xr.DataArray(float(t)) for t in c["wts"]]
+    arrs = xr.broadcast(c["fcst"], c["obs"], *ths, *wts)
+    dims = arrs[0].dims
+    flat = [np.asarray(a.transpose(*dims).values, dtype=float).ravel() for a in arrs]
+    k = len(ths)
+    out = np.array([firm_cell_oracle(flat[0][n], flat[1][n], c["alpha"], [(flat[2 + j][n], flat[2 + k + j][n]) for j in range(k)], c["d"], c["assign"])
+                    for n in range(flat[0].size)], dtype=float)
+    return {v: arrs[0].copy(data=out[:, i].reshape(arrs[0].shape)) for i, v in enumerate(FVARS)}
+
+
+def compare_with_oracle(ctx, what, oracle_pc, weights, result, desc):
+    """reduced implementation result vs NaN-skipping mean of weight * exact per-case oracle over the dims the result no longer has"""
+    x = oracle_pc if weights is None else oracle_pc * weights
+    red = [d for d in x.dims if d not in result.dims]
+    exp = x.mean(dim=red) if red else x
+    try:
+        exp = exp.transpose(*result.dims)
+        r2, exp = xr.align(result, exp, join="inner")
+        ok = r2.shape == result.shape and bool(np.allclose(np.asarray(r2, dtype=float), np.asarray(exp, dtype=float), rtol=0, atol=1e-9, equal_nan=True))
+        result = r2
+    except ValueError:
+        ok = False
+    if not ok:
+        ctx.violation(what, desc, str(np.asarray(exp).tolist())[:200], str(np.asarray(result).tolist())[:200])
+    return ok
+
+
+def firm_oracle_grid(ctx):
+    """the FIRM tie grid through the PUBLIC firm(), against the exact oracle (both assignments; values equal to the threshold)"""
+    CAT, _, _ = S()
+    vals = [0.0, 1.0, 2.0, NAN]
+    cases = list(itertools.product(vals, repeat=3))
+    idx = {"case": range(len(cases))}
+    f = xr.DataArray([c[0] for c in cases], dims=["case"], coords=idx)
+    o = xr.DataArray([c[1] for c in cases], dims=["case"], coords=idx)
+    t = xr.DataArray([c[2] for c in cases], dims=["case"], coords=idx)
+    n = 0
+    for assign in ("upper", "lower"):
+        for d in (0.0, 0.5, 1.0, 5.0, INF, None):
+            for a in (Fraction(1, 4), Fraction(7, 10)):
+                for wt in (1.0, 3.0):
+                    st, r = core.call_impl(CAT.firm, f, o, float(a), [t], [wt], discount_distance=d, preserve_dims="all", threshold_assignment=assign)
+                    if st != "ok":
+                        ctx.violation("firm raises on valid inputs (tie grid)", {"threshold_assignment": assign, "discount_distance": d, "risk_parameter": a}, "values", r)
+                        continue
+                    for k, (fv, ov, tv) in enumerate(cases):
+                        exp = firm_cell_oracle(fv, ov, a, [(tv, wt)], d, assign)
+                        n += 1
+                        for name, e in zip(FVARS, exp):
+                            x = float(r[name].values[k])
+                            if not core.close(x, e):
+                                ctx.violation(f"firm {name} differs from the stated fixed-risk penalty (exact oracle)",
+                                              {"fcst": fv, "obs": ov, "threshold": tv, "threshold_weight": wt, "risk_parameter": a, "discount_distance": d,
+                                               "threshold_assignment": assign}, e, x)
+    ctx.case(("firm_oracle_grid",), nontrivial=True)
+    ctx.count("firm_oracle_grid_points", n)
+
+
+def firm_oracle_random(ctx, n):
+    CAT, _, _ = S()
+    for i in range(n):
+        if not ctx.time_left():
+            break
+        c = gen_firm_case(ctx)
+        if c["bad"]:
+            continue
+        impl = core.call_impl(CAT.firm, c["fcst"], c["obs"], float(c["alpha"]), c["ths"], c["wts"], **firm_kwargs(c))
+        desc = firm_desc(c)
+        ctx.case(desc, impl[0] == "ok")
+        ctx.count("firm:oracle_checked")
+        if impl[0] != "ok":
+            if impl[1] != "err:ValueError":      # a request naming an absent dim etc. is a ValueError; anything else on valid data is not
+                ctx.violation("firm raises on a valid call", desc, "values / ValueError for the request", impl[1])
+            continue
+        orc = firm_oracle_arrays(c)
+        for v in FVARS:
+            compare_with_oracle(ctx, f"firm {v} differs from the weighted NaN-skipping mean of sum_j w_j * penalty_j (exact oracle)", orc[v], c["w"], impl[1][v], desc)
+
+
+def rms_case_oracle(fs, os_, ps, W, assign):
+    """sum_i sum_j w_ij s_j(f_i, y_i); NaN if a forecast or observation is NaN"""
+    tot = Fraction(0)
+    for i, (f, o) in enumerate(zip(fs, os_)):
+        f, o = fq(f), fq(o)
+        if f is None or o is None:
+            return NAN
+        for j, p in enumerate(ps):
+            p = Fraction(float(p))
+            above = (f >= p) if assign == "lower" else (f > p)
+            if o == 0 and above:
+                tot += Fraction(float(W[i][j])) * p
+            elif o == 1 and not above:
+                tot += Fraction(float(W[i][j])) * (1 - p)
+    return tot
+
+
+def rms_oracle_array(c):
+    f, o = xr.broadcast(c["fcst"], c["obs"])
+    sevs = list(c["dw"]["sev"].values)
+    ps = list(c["dw"]["prob"].values)
+    W = c["dw"].transpose("sev", "prob").values
+    other = [d for d in f.dims if d != "sev"]
+    f = f.sel(sev=sevs).transpose(*other, "sev")
+    o = o.sel(sev=sevs).transpose(*other, "sev")
+    fv = np.asarray(f.values, dtype=float).reshape(-1, len(sevs))
+    ov = np.asarray(o.values, dtype=float).reshape(-1, len(sevs))
+    out = np.array([float(rms_case_oracle(fv[k], ov[k], ps, W, c["assign"])) for k in range(fv.shape[0])])
+    ref = f.isel(sev=0, drop=True)
+    return ref.copy(data=out.reshape(ref.shape))
+
+
+def rms_oracle_grid(ctx):
+    """forecast probability on / off each threshold, obs 0/1/NaN, both assignments, through the public function"""
+    _, _, EM = S()
+    fvals = [0.0, 0.25, 0.5, 0.75, 1.0, NAN]
+    ovals = [0.0, 1.0, NAN]
+    cases = [(a, b) for a in fvals for b in ovals]
+    f = xr.DataArray([[c[0]] for c in cases], dims=["case", "sev"], coords={"case": range(len(cases)), "sev": [0]})
+    o = xr.DataArray([[c[1]] for c in cases], dims=["case", "sev"], coords={"case": range(len(cases)), "sev": [0]})
+    n = 0
+    for assign in ("upper", "lower"):
+        dw = xr.DataArray([[1.0], [2.0], [3.5]], dims=["prob", "sev"], coords={"prob": [0.75, 0.25, 0.5], "sev": [0]})
+        st, r = core.call_impl(EM.risk_matrix_score, f, o, dw, "sev", "prob", threshold_assignment=assign, preserve_dims="all")
+        if st != "ok":
+            ctx.violation("risk_matrix_score raises on valid inputs (cell grid)", {"threshold_assignment": assign}, "values", r)
+            continue
+        for k, (fv, ov) in enumerate(cases):
+            exp = rms_case_oracle([fv], [ov], [0.75, 0.25, 0.5], [[1.0, 2.0, 3.5]], assign)
+            x = float(r.values[k])
+            n += 1
+            if not core.close(x, exp):
+                ctx.violation("risk_matrix_score differs from sum_ij w_ij s_j(f_i, y_i) (exact oracle)",
+                              {"fcst": fv, "obs": ov, "prob_thresholds": [0.75, 0.25, 0.5], "weights": [1.0, 2.0, 3.5], "threshold_assignment": assign}, exp, x)
+    ctx.case(("rms_oracle_grid",), nontrivial=True)
+    ctx.count("rms_oracle_grid_points", n)
+
+
+def rms_oracle_random(ctx, n):
+    _, _, EM = S()
+    for i in range(n):
+        if not ctx.time_left():
+            break
+        c = gen_rms_case(ctx)
+        if c["bad"]:
+            continue
+        impl = core.call_impl(EM.risk_matrix_score, c["fcst"], c["obs"], c["dw"], c["sev"], c["prob"], **rms_kwargs(c))
+        desc = rms_desc(c)
+        ctx.case(desc, impl[0] == "ok")
+        ctx.count("rms:oracle_checked")
+        if impl[0] != "ok":
+            if impl[1] != "err:ValueError":
+                ctx.violation("risk_matrix_score raises on a valid call", desc, "values / ValueError for the request", impl[1])
+            continue
+        compare_with_oracle(ctx, "risk_matrix_score differs from the weighted NaN-skipping mean of sum_ij w_ij s_j(f_i, y_i) (exact oracle)",
+                            rms_oracle_array(c), c["w"], impl[1], desc)
+
+
+def wfs_oracle(M, aw):
+    """declarative specification: weight of level l at the decision points where l is reached strictly lower than in every column to the left"""
+    n_prob, n_sev = len(M) - 1, len(M[0]) - 1
+    mx = max(max(r) for r in M)
+
+    def cross(l, c):
+        col = [M[r][c] for r in range(len(M))][::-1]
+        for k, v in enumerate(col):
+            if v >= l:
+                return k
+        return 0
+    wts = [[Fraction(0)] * n_sev for _ in range(n_prob)]
+    for l in range(1, mx + 1):
+        for c in range(1, n_sev + 1):
+            x = cross(l, c)
+            if x > 0 and all(cross(l, c2) == 0 or x < cross(l, c2) for c2 in range(1, c)):
+                wts[x - 1][c - 1] += aw[l - 1]
+    return wts[::-1]
+
+
+def wfs_oracle_one(ctx, EM, M, aw, ps, sevs):
+    impl = core.call_impl(EM.weights_from_warning_scaling, np.array(M, dtype=int), [float(a) for a in aw], "sev", sevs, "prob", [float(p) for p in ps])
+    desc = {"fn": "weights_from_warning_scaling", "scaling_matrix": M, "assessment_weights": aw, "severity_coords": sevs, "prob_threshold_coords": ps}
+    ctx.case(("wfs_oracle", str(M), str(aw)), impl[0] == "ok")
+    ctx.count("wfs:oracle_checked")
+    if impl[0] != "ok":
+        ctx.violation("weights_from_warning_scaling raises on a valid scaling matrix", desc, "a weight matrix", impl[1])
+        return
+    exp = wfs_oracle(M, aw)
+    da = impl[1]
+    okc = core.close_list(list(da["prob"].values), sorted(ps, reverse=True)) and list(da.dims) == ["prob", "sev"]
+    okv = core.close_list(list(np.asarray(da.values, dtype=float).ravel()), [x for r in exp for x in r])
+    if not (okc and okv):
+        ctx.violation("weights_from_warning_scaling differs from the specification (exact oracle): weight of level l at the decision points where l is "
+                      "reached strictly lower than in every column to the left, rows attached to decreasing probabilities", desc,
+                      {"prob": sorted(ps, reverse=True), "weights": exp}, {"prob": da["prob"].values.tolist(), "weights": da.values.tolist()})
+
+
+def wfs_oracle_check(ctx, n):
+    _, _, EM = S()
+    rng = ctx.rng
+    # more assessment weights than levels used, crossover in the top row, several thresholds
+    for M, aw in (([[0, 1], [0, 0], [0, 0]], [1]), ([[0, 1], [0, 0], [0, 0]], [1, 5]), ([[0, 1, 1], [0, 1, 1], [0, 0, 1], [0, 0, 0]], [1]),
+                  ([[0, 1, 1], [0, 1, 1], [0, 0, 1], [0, 0, 0]], [1, 5, 7]), ([[0, 2, 3, 3], [0, 1, 2, 3], [0, 1, 1, 2], [0, 0, 0, 0]], [1, 2, 3]),
+                  ([[0, 2, 3, 3], [0, 1, 2, 3], [0, 1, 1, 2], [0, 0, 0, 0]], [1, 2, 3, 4, 5]), ([[0, 1], [0, 1], [0, 1], [0, 0], [0, 0]], [2])):
+        n_prob, n_sev = len(M) - 1, len(M[0]) - 1
+        wfs_oracle_one(ctx, EM, M, [Fraction(a) for a in aw], [Fraction(k + 1, 8) for k in range(n_prob)], list(range(n_sev)))
+    for i in range(n):
+        if not ctx.time_left():
+            break
+        n_prob, n_sev, q = rng.randint(1, 4), rng.randint(1, 3), rng.randint(1, 3)
+        M = valid_scaling(rng, n_prob, n_sev, q)
+        mx = max(v for r in M for v in r)
+        aw = [Fraction(rng.randint(1, 6), 2) for _ in range(mx + rng.randint(0, 3))] or [Fraction(1)]
+        ps = rng.sample([Fraction(k, 8) for k in range(1, 8)], n_prob)
+        wfs_oracle_one(ctx, EM, M, aw, ps, list(range(n_sev)))
+
+
+def mwa_oracle_check(ctx, n):
+    _, _, EM = S()
+    rng = ctx.rng
+    for i in range(n):
+        nr, nc = rng.randint(1, 3), rng.randint(1, 3)
+        M = [[Fraction(rng.randint(0, 8), 2) for _ in range(nc)] for _ in range(nr)]
+        ps = rng.sample([Fraction(k, 8) for k in range(1, 8)], nr)
+        impl = core.call_impl(EM.matrix_weights_to_array, np.array([[float(x) for x in r_] for r_ in M]), "sev", list(range(nc)), "prob", [float(p) for p in ps])
+        desc = {"fn": "matrix_weights_to_array", "matrix_weights": M, "prob_threshold_coords": ps}
+        ctx.case(("mwa_oracle", str(M), str(ps)), impl[0] == "ok")
+        if impl[0] != "ok":
+            ctx.violation("matrix_weights_to_array raises on valid input", desc, "an array", impl[1])
+            continue
+        da = impl[1]
+        if not (core.close_list(list(da["prob"].values), sorted(ps, reverse=True))
+                and core.close_list(list(np.asarray(da.values, dtype=float).ravel()), [x for r in M for x in r])):
+            ctx.violation("matrix_weights_to_array: rows must be kept and attached, in order, to the thresholds sorted decreasingly", desc,
+                          {"prob": sorted(ps, reverse=True), "data": M}, {"prob": da["prob"].values.tolist(), "data": da.values.tolist()})
+
+
+def oracle_checks(ctx, scale=1):
+    firm_oracle_grid(ctx)
+    rms_oracle_grid(ctx)
+    firm_oracle_random(ctx, ctx.n(60 * scale, 600 * scale))
+    rms_oracle_random(ctx, ctx.n(60 * scale, 600 * scale))
+    wfs_oracle_check(ctx, ctx.n(40 * scale, 400 * scale))
+    mwa_oracle_check(ctx, ctx.n(20 * scale, 200 * scale))
+
+
 # ------------------------------------------------------------------------------------------
 # (a) FIRM tie grid
 # ------------------------------------------------------------------------------------------
@@ -193,7 +471,7 @@ def gen_firm_case(ctx):
     if rng.random() < 0.05:
         alpha = rng.choice([Fraction(0), Fraction(1), Fraction(-1, 2), Fraction(3, 2)])
         bad.append("alpha")
-    d = rng.choice([0, 0, Fraction(1, 2), 1, 2, INF])
+    d = rng.choice([0, 0, Fraction(1, 2), 1, 2, INF, None])
     if rng.random() < 0.04:
         d = Fraction(-1, 2)
         bad.append("discount")
@@ -214,7 +492,7 @@ def gen_firm_case(ctx):
 
 
 def firm_kwargs(c):
-    kw = {"discount_distance": float(c["d"]), "threshold_assignment": c["assign"]}
+    kw = {"discount_distance": None if c["d"] is None else float(c["d"]), "threshold_assignment": c["assign"]}
     if c["rd"] is not None:
         kw["reduce_dims"] = c["rd"]
     if c["pd"] is not None:
@@ -240,14 +518,14 @@ def firm_full(ctx):
         c = gen_firm_case(ctx)
         impl = core.call_impl(CAT.firm, c["fcst"], c["obs"], float(c["alpha"]), c["ths"], c["wts"], **firm_kwargs(c))
         m = ctx.model("c12_firm", enc_list([enc_arr(c["fcst"]), enc_arr(c["obs"]), enc_num(c["alpha"]), enc_list([enc_arr(t) for t in c["ths"]]),
-                                            enc_list([enc_arr(t) for t in c["wts"]]), enc_num(c["d"]), enc_dimspec(c["rd"]), enc_dimspec(c["pd"]),
+                                            enc_list([enc_arr(t) for t in c["wts"]]), enc_opt(c["d"], enc_num), enc_dimspec(c["rd"]), enc_dimspec(c["pd"]),
                                             enc_opt(c["w"], enc_arr), enc_str(c["assign"])]))
         desc = firm_desc(c)
         nontrivial = impl[0] == "ok" and bool(np.isfinite(impl[1]["firm_score"].values).any())
         ctx.case(desc, nontrivial)
         ctx.count("firm:" + ("ok" if impl[0] == "ok" else impl[1]))
         ctx.count("firm:assign=" + c["assign"])
-        ctx.count("firm:discount=" + ("0" if c["d"] == 0 else "inf" if c["d"] == INF else "finite"))
+        ctx.count("firm:discount=" + ("none" if c["d"] is None else "0" if c["d"] == 0 else "inf" if c["d"] == INF else "finite"))
         for b in c["bad"]:
             ctx.count("firm:malformed=" + b)
         if any(isinstance(t, xr.DataArray) for t in c["ths"]):
@@ -264,29 +542,13 @@ def firm_full(ctx):
         r = impl[1]
         # firm_score = overforecast + underforecast per case (before averaging); reduced = NaN-skipping mean of weight * per-case
         if True:
-            st, pc = core.call_impl(CAT.firm, c["fcst"], c["obs"], float(c["alpha"]), c["ths"], c["wts"], discount_distance=float(c["d"]),
-                                    threshold_assignment=c["assign"], preserve_dims="all")
+            st, pc = core.call_impl(CAT.firm, c["fcst"], c["obs"], float(c["alpha"]), c["ths"], c["wts"],
+                                    discount_distance=None if c["d"] is None else float(c["d"]), threshold_assignment=c["assign"], preserve_dims="all")
             if st == "ok":
                 for v in FVARS:
                     check_mean_of_cases(ctx, "firm " + v, pc[v], c["w"], r[v], desc)
                 if not np.allclose(pc["firm_score"].values, (pc["overforecast_penalty"] + pc["underforecast_penalty"]).values, rtol=0, atol=1e-9, equal_nan=True):
                     ctx.violation("firm_score != overforecast_penalty + underforecast_penalty", desc, "sum", str(pc["firm_score"].values.tolist())[:200])
-    # documented: discount_distance=None means no discounting
-    c = None
-    for _ in range(50):
-        c = gen_firm_case(ctx)
-        if not c["bad"] and c["d"] == 0:
-            break
-    if c is not None and not c["bad"]:
-        kw = firm_kwargs(c)
-        ref = core.call_impl(CAT.firm, c["fcst"], c["obs"], float(c["alpha"]), c["ths"], c["wts"], **kw)
-        kw["discount_distance"] = None
-        got = core.call_impl(CAT.firm, c["fcst"], c["obs"], float(c["alpha"]), c["ths"], c["wts"], **kw)
-        if ref[0] == "ok":
-            okk = got[0] == "ok" and all(np.allclose(got[1][v].values, ref[1][v].values, equal_nan=True) for v in FVARS)
-            if not okk:
-                ctx.violation("firm(discount_distance=None) is documented to mean no discounting", dict(firm_desc(c), discount_distance=None),
-                              "same as discount_distance=0", str(got[1])[:120], finding_key="firm-discount-none")
 
 
 def check_mean_of_cases(ctx, fn, per_case, weights, result, desc):
@@ -534,7 +796,7 @@ def rms_full(ctx):
             okk = got[0] == "ok" and np.allclose(np.asarray(got[1]), np.asarray(impl[1]), equal_nan=True)
             if not okk:
                 ctx.violation("risk_matrix_score depends on the identity (not the value) of the severity_dim string", desc,
-                              str(np.asarray(impl[1]).tolist())[:120], str(got[1])[:120], finding_key="rms-severity-dim-identity")
+                              str(np.asarray(impl[1]).tolist())[:120], str(got[1])[:120])
 
 
 # ------------------------------------------------------------------------------------------
@@ -614,19 +876,15 @@ def wfs_one(ctx, EM, M, aw, ps, sevs, bad=None):
     desc = {"fn": "weights_from_warning_scaling", "scaling_matrix": M, "assessment_weights": aw, "severity_coords": sevs, "prob_threshold_coords": ps}
     ctx.case(desc, impl[0] == "ok")
     ctx.count("wfs:" + ("ok" if impl[0] == "ok" else impl[1]) + (":" + bad if bad else ""))
+    ok, why = compare_matrix(impl, m)
+    if not ok:
+        ctx.tie_fail("weights_from_warning_scaling vs line-by-line model: " + why, desc, str(impl[1])[:300], str(m)[:300])
     ms = ctx.model("c12_wfs", enc_list(arg + [enc_bool(True)]))
     ok_spec, why_spec = compare_matrix(impl, ms)
-    if ok_spec:
-        return impl
-    # the implementation deviates from the specification: is it exactly the recorded deviation (= the line-by-line model of the
-    # present algorithm, inside the listed condition)?
-    ok_code, why_code = compare_matrix(impl, m)
-    n_prob = len(M) - 1
-    mx = max([v for r in M for v in r] + [0])
-    key = "scaling-lowest-index-init" if (ok_code and max(mx, len(aw)) < n_prob) else None
-    ctx.violation("weights_from_warning_scaling differs from the specification (the weight of a level is dropped when its crossover row index "
-                  "is >= max(levels, len(assessment_weights)) + 1): " + why_spec, desc, str(ms)[:300],
-                  str(impl[1].values.tolist() if impl[0] == "ok" else impl[1])[:300], finding_key=key)
+    if not ok_spec:
+        ctx.violation("weights_from_warning_scaling differs from the specification (weight of level l at the decision points where l is reached "
+                      "strictly lower than in every column to the left): " + why_spec, desc, str(ms)[:300],
+                      str(impl[1].values.tolist() if impl[0] == "ok" else impl[1])[:300])
     return impl
 
 
@@ -726,8 +984,54 @@ def guard_boundaries(ctx):
     ctx.count("guard_boundary_probes", 16)
 
 
-def run(ctx):
+def corpus(ctx):
+    """deterministic repros of the three defects repaired in /repo (known_findings.d/C12.json, status fixed): the old behaviour is a VIOLATION"""
+    CAT, _, EM = S()
+    # afd292a: firm(discount_distance=None) means no discounting
+    f = xr.DataArray([[1.0, 2, 3], [2, 3, 4]], dims=["t", "x"])
+    o = xr.DataArray([2.0, 3.0], dims=["t"])
+    ref = core.call_impl(CAT.firm, f, o, 0.5, [2.0], [1.0], discount_distance=0, preserve_dims="all")
+    got = core.call_impl(CAT.firm, f, o, 0.5, [2.0], [1.0], discount_distance=None, preserve_dims="all")
+    case = {"fn": "firm", "fcst": [[1, 2, 3], [2, 3, 4]], "obs": [2, 3], "risk_parameter": 0.5, "thresholds": [2.0], "weights": [1.0], "discount_distance": None}
+    ctx.case(("corpus", "firm-discount-none"))
+    if not (ref[0] == "ok" and got[0] == "ok" and all(np.allclose(got[1][v].values, ref[1][v].values, equal_nan=True) for v in FVARS)):
+        ctx.violation("firm(discount_distance=None) must mean no discounting (regression of afd292a)", case, "same as discount_distance=0", str(got[1])[:120])
+    # 65c5778: severity_dim equal to the dimension name but not the same string object
+    dw = xr.DataArray([[1.0, 2, 3], [1, 2, 3], [1, 2, 3]], dims=["prob", "sev"], coords={"prob": [0.1, 0.3, 0.5], "sev": [0, 1, 2]})
+    f = xr.DataArray([[0.45, 0.22, 0.05], [0.65, 0.32, 0.09]], dims=["time", "sev"], coords={"time": [0, 1], "sev": [0, 1, 2]})
+    o = xr.DataArray([[1.0, 1, 0], [1, 0, 0]], dims=["time", "sev"], coords={"time": [0, 1], "sev": [0, 1, 2]})
+    sd = "".join(["se", "v"])
+    for kw in ({}, {"reduce_dims": "all"}, {"preserve_dims": ["time"]}, {"preserve_dims": "all"}):
+        ref = core.call_impl(EM.risk_matrix_score, f, o, dw, "sev", "prob", **kw)
+        got = core.call_impl(EM.risk_matrix_score, f, o, dw, sd, "prob", **kw)
+        ctx.case(("corpus", "rms-severity-dim-identity", str(kw)))
+        if not (ref[0] == "ok" and got[0] == "ok" and np.allclose(np.asarray(got[1]), np.asarray(ref[1]))):
+            ctx.violation("risk_matrix_score depends on the identity (not the value) of the severity_dim string (regression of 65c5778)",
+                          {"fn": "risk_matrix_score", "severity_dim": "''.join(['se','v'])", **kw}, str(ref[1])[:100], str(got[1])[:100])
+    # 73a32af: lowest_prob_index starts at n_prob + 1
+    M = [[0, 1], [0, 0], [0, 0]]
+    a = core.call_impl(EM.weights_from_warning_scaling, np.array(M, dtype=int), [1.0], "sev", [0], "prob", [0.25, 0.5])
+    b = core.call_impl(EM.weights_from_warning_scaling, np.array(M, dtype=int), [1.0, 5.0], "sev", [0], "prob", [0.25, 0.5])
+    if not (a[0] == "ok" and b[0] == "ok" and a[1].values.tolist() == [[1.0], [0.0]] and b[1].values.tolist() == [[1.0], [0.0]]):
+        ctx.violation("weights_from_warning_scaling drops the weight of a level reached only in a high row / depends on an unused assessment "
+                      "weight (regression of 73a32af)", {"scaling_matrix": M, "assessment_weights": [[1], [1, 5]], "prob_threshold_coords": [0.25, 0.5]},
+                      [[1.0], [0.0]], str((a[1], b[1]))[:200])
+    ctx.count("corpus_cases", 7)
+
+
+def run_without_model(ctx):
+    """used when a site no longer translates / the extracted model does not build: the specification predicates evaluated with the
+    independent exact-rational oracle, and the relations between public calls (Murphy link)"""
+    corpus(ctx)
     guard_boundaries(ctx)
+    oracle_checks(ctx, scale=3)
+    firm_murphy_sum(ctx)
+
+
+def run(ctx):
+    corpus(ctx)
+    guard_boundaries(ctx)
+    oracle_checks(ctx)
     firm_grid(ctx)
     rms_grid(ctx)
     firm_full(ctx)
